@@ -1,5 +1,8 @@
 --------------------------- MODULE MC_RevTree ---------------------------
 EXTENDS RevTree, Json
+MCGood == AllGoodChains
+MCBad  == AllBadChains({r \in Rev : r.d = 1} \cup {Mk(1, 2)})     \* a few malformed histories are enough
+NoChains == {}
 One == {1}
 Two == {1, 2}
 TreeCfg(gv) == [lvl |-> "tree", ac |-> TRUE, lim |-> 0, gv |-> gv]
